@@ -246,6 +246,7 @@ char *strdup(const char *s)
 #endif
 
 /* numeric conversion: ASSUMES valid C string; value unconstrained */
+#ifndef VERIF_OWN_STRTOL
 unsigned long strtoul(const char *s, char **end, int base)
 {
     __CPROVER_assert(s != NULL && __CPROVER_r_ok(s, 1), "strtoul: argument readable");
@@ -264,5 +265,6 @@ double strtod(const char *s, char **end)
     if (end) { size_t n = strlen(s); size_t r = nondet_size_t(); __CPROVER_assume(r <= n); *end = (char *) s + r; }
     return nondet_double();
 }
+#endif /* VERIF_OWN_STRTOL */
 
 #endif /* VERIF_ENV_H */
